@@ -1,7 +1,7 @@
 (* C07: scoring.  Model = graph of the implementation (complete domain), model = Law 77 spec. *)
 From BE Require Import Model.Score Spec.Duplicate Spec.Domains Proofs.Finite Gen.ScoreGraph.
 From Coq Require Import Lia.
-Open Scope Z_scope.
+Local Open Scope Z_scope.
 
 Definition oz_eqb (a b : option Z) : bool :=
   match a, b with Some x, Some y => x =? y | None, None => true | _, _ => false end.
